@@ -307,6 +307,8 @@ struct rec_event { int slot; uint64_t arg; const uint8_t* ptr; uint64_t len; };
 extern struct rec_event rec_ev[REC_MAX]; /* events since rec_reset (first REC_MAX) */
 extern int rec_n;                        /* number of callback invocations since rec_reset */
 extern const struct cbor_callbacks rec_table;
+extern int rec_reenter;               /* callbacks decode an unrelated buffer before returning */
+extern uint64_t rec_reentered_calls;
 struct cbor_callbacks rec_table_only(int slot); /* only that callback exists, every other slot is NULL */
 extern void* rec_expected_ctx;           /* callbacks check the context pointer they receive */
 extern int rec_bad_ctx;
@@ -329,6 +331,7 @@ extern const char* const enc_names[E_N];
 size_t vh_call_encoder(int e, uint64_t v, uint8_t* buf, size_t n);
 
 /* construction-API tree builder with variations (d_ser.c), shared with the fault driver */
+extern bool g_any_float_in_half;
 cbor_item_t* ser_build_variant(const rnode* n, struct vh_rng* r);
 rnode* ser_api_shadow(uint64_t u, uint64_t seed, struct vh_rng* r);
 
